@@ -752,7 +752,7 @@ fn run_case(isa: &dyn Isa, g: Gen, r: &mut Rng, toy: bool) -> Case {
 
 /// hand-written regression programs (indices 0..N_FIXED): the minimised forms of past failures and of the
 /// situations the property names
-const N_FIXED: u64 = 8;
+const N_FIXED: u64 = 10;
 const N_FIXED_REAL: u64 = 8;
 fn fixed_toy(index: u64) -> Gen {
     use Toy::*;
@@ -773,7 +773,14 @@ fn fixed_toy(index: u64) -> Gen {
         // manual edge whose head starts a run longer than one window (known finding)
         6 => (0x1000, (0..18).map(|i| Add((i % 8) as u8, 1)).chain([Halt, Add(0, 1), Halt]).collect(), 0, vec![], vec![(1, 19, None)]),
         // the function is a jump to itself
-        _ => (0x1004, vec![Jmp(0)], 0, vec![], vec![]),
+        7 => (0x1004, vec![Jmp(0)], 0, vec![], vec![]),
+        // blocks that share two and more instructions: the entry block is cut by the window after 16
+        // instructions, the back edge enters it at its third instruction, and the block lifted there shares
+        // 14 instructions with the entry block and 2 with the block after it
+        8 => (0x1000, (0..20).map(|i| Add((i % 8) as u8, 1)).chain([Jcc(1, 0, -18), Halt]).collect(), 0, vec![], vec![]),
+        // the function entry is a loop header; the loop is closed by a separate block ending in `jmp entry`
+        // (one unguarded out-edge into a block with one in-edge: merge must not swallow the entry)
+        _ => (0x1010, vec![Add(0, 1), Jcc(0, 1, 3), Add(2, 1), Jmp(-3), Halt], 0, vec![], vec![]),
     };
     let bytes: Vec<u8> = ins.iter().flat_map(|i| i.encode()).collect();
     let mut mapped = vec![true; bytes.len()];
